@@ -21,7 +21,7 @@ func init() {
 			"(O2) no unguarded NaN / zero-divide source: every float or integer division and every math.Sqrt / math.Log10 in the limit algorithms, limit/functions and the " +
 			"measurements the limits instantiate has its divisor proved != 0 (argument >= 0, > 0) at that point, using facts of the single call site of unexported helpers; NaN " +
 			"propagation is not tracked - guarding the sources is the necessary condition; (O3) every index into the pre-computed tables is proved >= 0 and < len(table); " +
-			"(O4) the windowed and traced wrappers report exactly the delegate's estimate (imported from C16).",
+			"(O4) the windowed and traced wrappers report exactly the delegate's estimate (imported from C16). O2 also covers the module functions the sample path calls outside those packages (core's common metric sampler). When EstimatedLimit serves an atomically published copy of the estimate, O1 additionally requires every store of the estimate to be followed by a store of the copy before its function returns.",
 	})
 }
 
